@@ -13,7 +13,7 @@ CLAIMED = {
 }
 
 CLAIMED["C17"] = ("MIR symbolic execution (mirsym) of format_string, output-thread closure arms, stdin worker closure + z3 path queries; stdin battery replay",
-    "bounded symbolic model checking of the real MIR: the stdout buffer is format_code's Ok payload (or the input when skipped), written once under one lock; nothing on Err; no fs mutation",
+    "bounded symbolic model checking of the real MIR: the stdout buffer is format_code's Ok payload (or the input when skipped), written once under one lock; nothing on Err; no fs mutation; the range handed to the library is from_values(--range-start, --range-end) exactly when either option is given",
     "trusts rustc's MIR printer, mirsym and its summaries (into_bytes identity, Context passthrough), z3", "5/C17")
 
 CLAIMED["C19"] = ("MIR-extracted atomic-operation programs of the output thread and the logger + z3 symbolic-schedule encoding (positions in the SeqCst order as Ints); schedule replay on the cfg(stylua_verif) build",
@@ -29,7 +29,7 @@ CLAIMED["C04"] = ("regex patterns + replacer closure + get_quote_to_use read fro
     "trusts rustc's MIR printer, mirsym, the regex front end (leftmost-first semantics), the decoder oracle, z3; longer literals are outside", "5/C04")
 
 CLAIMED["C08"] = ("mirsym over should_format_node / check_toggle_formatting / format_block (one loop step + tail) / format_stmt / format_last_stmt / format_eof with symbolic comment lines, flags and FormatNode outcomes; z3 obligations; directive battery replay",
-    "bounded symbolic model checking: Skip iff disabled or an exact `stylua: ignore` line among <=2x2 comment lines; toggle = fold over <=3 lines; a statement that is not Normal leaves format_block as returned by format_stmt with its own semicolon (any loop state, so any block length); Skip returns the node itself",
+    "bounded symbolic model checking: Skip iff disabled or an exact `stylua: ignore` line among <=2x2 comment lines; toggle = fold over <=3 lines; a statement that is not Normal leaves format_block as returned by format_stmt with its own semicolon (any loop state, so any block length); Skip returns the node itself; the ignore state is threaded (each statement toggles the context its predecessor left and is formatted under its own toggled context); a table Field's children are formatted only behind should_format_node(field) != Skip, also by the range-only visitor",
     "trusts rustc's MIR printer, mirsym and its iterator/trivia summaries, z3; full_moon's lossless to_owned/to_string; the statement text itself is not modelled", "5/C08-C09")
 CLAIMED["C09"] = ("same encoding as C08 (vcheck/ignoremodel.py): range test of should_format_node over 64-bit positions and optional bounds, format_block step, NotInRange arms; range battery replay",
     "bounded symbolic model checking: NotInRange iff node_start < range.start or node_end > range.end for present bounds (Skip first); out-of-range statements are pushed untouched with their semicolon; NotInRange only reaches the block-only visitors",
@@ -48,7 +48,7 @@ CLAIMED["C11"] = ("format_function_call over a two-suffix list (the ObscureWitho
     "trusts rustc's MIR printer, mirsym, z3; 'every layout path of every construct' beyond these kernels is outside", "5/C11")
 
 CLAIMED["C12"] = ("mirsym over partition_nodes_into_groups (one loop step from an arbitrary parts tail), the ignore-guard closure, sort_requires' rebuild step and format_ast's enabled test; z3; require-block battery replay",
-    "bounded symbolic model checking of the kernels: a group boundary is opened iff first / after Other / kind differs / more than one line after the END of the previous require; Skip or NotInRange members block sorting; sortable groups get one stable sort_by_key; the new first member keeps its own leading trivia; sorting runs iff enabled",
+    "bounded symbolic model checking of the kernels: a group boundary is opened iff first / after Other / kind differs / more than one line after the END of the previous require; Skip or NotInRange members block sorting; the ignore state is toggled over the top-level statements (ignore start/end regions); sortable groups get one stable sort_by_key; the new first member keeps its own leading trivia; sorting runs iff enabled",
     "trusts rustc's MIR printer, mirsym, z3, std's stable sort; get_expression_kind's string tests and update_positions are outside", "5/C12")
 
 CLAIMED["C20"] = ("override dominance over every configuration route of src/cli/config.rs (origin analysis, vcheck/cfgorigin.py) and serde's derive-generated key/variant visitors (unknown => Err); mirsym over load_overrides (bin MIR, convert_enum! conversions inlined, one flag at a time + all flags wired) and editorconfig::load (lib MIR with the editorconfig feature, Properties::get::<K>() symbolic per key); z3 against the same-name / documented mapping; three-carrier replay",
@@ -56,27 +56,27 @@ CLAIMED["C20"] = ("override dominance over every configuration route of src/cli/
     "trusts rustc's MIR printer, mirsym, z3; serde/toml decoding, deny_unknown_fields, clap's string->enum parsing and ec4rs are outside the encoding (carrier replay only)", "5/C15-C20")
 
 CLAIMED["C18"] = ("exactness of each producer's `no difference` test (unified: IEEE f32 comparison of the similarity ratio with 1.0 in z3's FP theory); mirsym over output_diff_json (one DiffOp of symbolic kind, indices and lengths; its filter/map closures executed) against similar's iter_changes contract, create_diff and its two callers (producer selection and argument order); z3; diff battery replay with the checker's own JSON/unified patchers",
-    "bounded symbolic model checking of the JSON line-range kernel and the diff wiring: for every DiffOp kind with indices and lengths < 2^32: start = index, end = index+len-1, `original`/`expected` are the concatenation of ALL removed/added lines, no arithmetic panic; every output format hands (original, expected) in that order to its producer; format_file/format_string diff the text read against format_code's result",
+    "bounded symbolic model checking of the JSON line-range kernel and the diff wiring: for every DiffOp kind with indices and lengths < 2^32: start = index, end = index+len-1, `original`/`expected` are the concatenation of ALL removed/added lines, no arithmetic panic; a `no change` test that looks at the op list instead of ratio() is decided over a model of <= 3 DiffOps under similar's contract; each producer diffs the two texts as given; every output format hands (original, expected) in that order to its producer; format_file/format_string diff the text read against format_code's result",
     "trusts rustc's MIR printer, mirsym, z3, similar's TextDiff (grouped_ops / iter_changes contract) and unified_diff; the unified/standard texts themselves are produced by similar/console and only replayed, not encoded", "5/C18")
 
 CLAIMED["C07"] = ("mirsym panic census over every panic!/unreachable!/assert! site of the library MIR (both feature sets) with valid-discriminant constraints; z3 sequence theory over the tokenizer's number language against Rust's f64 / from_str_radix accept languages for verify_ast::visit_number; Shape/Indent arithmetic and the simple_heuristics guard by path queries; native replay over a syntax corpus",
-    "bounded symbolic model checking of the named panic mechanisms (NOT whole-program totality): parse errors always surface as Err; no node kind of the feature set falls into a wildcard/unreachable arm except under the listed caller/parser preconditions (each listed with the node kinds allowed to reach it); Shape arithmetic cannot overflow for indent_width <= 2^16, nesting < 2^32, offsets < 2^48 and any column_width; argument trial formatting happens only without simple_heuristics and always sets it; --verify number normalisation neither panics nor slices out of bounds for any number token of <= 24 characters of any syntax",
+    "bounded symbolic model checking of the named panic mechanisms (NOT whole-program totality): parse errors always surface as Err; no node kind of the feature set falls into a wildcard/unreachable arm except under the listed caller/parser preconditions (each listed with the node kinds allowed to reach it); Shape arithmetic cannot overflow for indent_width <= 2^16, nesting < 2^32, offsets < 2^48 and any column_width; argument trial formatting happens only without simple_heuristics and always sets it; the collapse guard (is_block_simple) accepts no statement kind that reaches the guarded unreachable!()s; format_prefix re-establishes Prefix::Expression(Parentheses) on every layout path; an Ok path of format_code went through the parser and format_ast; --verify number normalisation neither panics nor slices out of bounds for any number token of <= 24 characters of any syntax",
     "trusts rustc's MIR printer (and its removal of exhaustive wildcard arms), mirsym, z3 (incl. its sequence solver), the number-language transcriptions in vcheck/numstr.py; stack depth, wall time, unwrap() on callee results and string-width arithmetic are outside", "5/C07")
 
 CLAIMED["C10"] = ("mirsym over the whitespace sources (line_ending_character, create_newline_trivia, create_*indent_trivia, format_token's comment and long-string arms, load_token_trivia, format_eof, pop_until_no_whitespace) with bounded symbolic strings (vcheck/bstr.py: N code-point terms + length, literal replace / trim as quantifier-free terms, DFA runs for line-break languages); z3; whitespace-site census over the whole library MIR; model-derived Lua replay",
-    "bounded symbolic model checking of the whitespace sources: newline trivia is exactly the configured line ending; indent trivia is tabs(level) or spaces(level*indent_width); for EVERY comment / shebang / long-string text of <= 6 (thorough 8) characters written with LF or CRLF the emitted text has no trailing white space resp. only configured line breaks and is otherwise unchanged; input whitespace trivia is never copied; EOF handling pops trailing whitespace and appends one newline; no other place of the crate builds whitespace tokens, tabs, or spaces(n>1)",
+    "bounded symbolic model checking of the whitespace sources: newline trivia is exactly the configured line ending; indent trivia is tabs(level) or spaces(level*indent_width); for EVERY comment / shebang / long-string text of <= 6 (thorough 8) characters written with LF or CRLF the emitted text has no trailing white space resp. only configured line breaks and is otherwise unchanged; input whitespace trivia is never copied; EOF handling pops trailing whitespace and appends one newline; no other place of the crate builds whitespace tokens, tabs, or spaces(n>1); in every token list assembled by a function that places indents (vec!/push/append/extend in path order) an indent is never directly followed by white space or by space-prefixed comments",
     "trusts rustc's MIR printer, mirsym, z3, full_moon's spaces()/tabs(); that every layout path places indent trivia after each newline is NOT decided (only the sources are)", "5/C10")
 
 CLAIMED["C02"] = ("mirsym over EVERY library function that maps a full_moon AST struct/enum `&T` to a `T` (all layout decisions symbolic) with a provenance analysis of the builder chain (`T::with_x`, `T::new`) against the input's accessors; z3 decides path feasibility, optional-child presence and node-kind equality; C04's number kernel and C05's composer (small plan) reused; token-level normal-form replay over a syntax corpus",
-    "bounded symbolic model checking of one inductive step per formatter: on every control path of ~90 formatter functions (loops visited <= 2 times) every child slot of the returned node derives from the input's same-named child (an optional child is dropped only when absent in the input; an empty child is replaced only under an emptiness test), enum formatters return the node kind they received, call-site guards of lossy helpers hold; number rewriting and parenthesis removal as in C04/C05 (<=2 operators here)",
+    "bounded symbolic model checking of one inductive step per formatter: on every control path of ~90 formatter functions (loops visited <= 2 times) every child slot of the returned node derives from the input's same-named child (an optional child is dropped only when absent in the input; an empty child is replaced only under an emptiness test), enum formatters return the node kind they received (also for enum nodes rebuilt inside a function from the payload of a variant), call-site guards of lossy helpers hold; Luau type parentheses: keep_parentheses is true wherever the grammar needs them and the children of union / intersection / optional / variadic types are formatted under the corresponding context mark on every layout path; number rewriting and parenthesis removal as in C04/C05 (<=2 operators here)",
     "trusts rustc's MIR printer, mirsym, z3, full_moon's builder/accessor pairs as parsed from its source; provenance is structural (a slot filled from a value computed from the right child counts as that child); symbol TEXT, trivia (C03) and Punctuated internals are outside", "5/C02")
 
 CLAIMED["C03"] = ("mirsym over every formatter function of the library (all layout paths) with a provenance analysis of removed tokens: a token of the input that does not reach the result must have both trivia lists read and flowing into the result, or a comment test over exactly that trivia must be false on the path (z3 decides the guards); load_token_trivia one-step, format_token_reference composition, comment text via the bounded-string kernel of C10; comment-census replay with the checker's own lexer",
-    "bounded symbolic model checking of the places where trivia changes hands: in ~100 formatter functions (loops visited once) no token is dropped together with comments (removed parentheses, condition parentheses, call-sugar parentheses, semicolons, rebuilt symbols); every comment trivia is formatted and pushed exactly once; the text and bracket level of a comment survive for all texts of <= 5 (thorough 7) characters",
+    "bounded symbolic model checking of the places where trivia changes hands: in ~100 formatter functions (loops visited once) no token is dropped together with comments (removed parentheses, condition parentheses, call-sugar parentheses, semicolons, rebuilt symbols); trivia replaced with FormatTriviaType::Replace on an input token was read into the result or holds no comment; a collapse guard (if-guard, one-line function body) is true only if a comment test on every part that lands mid-line said no; every comment trivia is formatted and pushed exactly once; the text and bracket level of a comment survive for all texts of <= 5 (thorough 7) characters",
     "trusts rustc's MIR printer, mirsym, z3, the exactness of trivia_util's comment tests; comments moved between tokens inside Punctuated lists and double formatting of discarded trial results are outside", "5/C03")
 
 CLAIMED["C16"] = ("mirsym over one step of format()'s walker loop from an arbitrary loop state (the walker yields one entry; seen / is_file / explicit / glob match / ignored are independent symbolic facts), should_respect_ignores / is_explicitly_provided, and the walker set-up calls; z3; directory-tree replay",
-    "bounded symbolic model checking of the in-repo selection logic only: an entry is handed to the pool iff it is new, a file, and selected by the documented explicit / default-glob / --respect-ignores rules; it is recorded in seen_files exactly when new; the worker gets that entry's path; hidden(!allow_hidden), .styluaignore as custom ignore file, default glob iff no --glob. Which paths the `ignore` crate's walker yields for a tree is its contract, not decided here",
+    "bounded symbolic model checking of the in-repo selection logic only: an entry is handed to the pool iff it is new, a file, and selected by the documented explicit / default-glob / --respect-ignores rules; it is recorded in seen_files when new, under a key that does not depend on a leading `./`; the worker gets that entry's path; path_is_stylua_ignored asks the matcher of THIS path's directory about this path (nothing cached) and respects the ignore crate's root precondition; hidden(!allow_hidden), .styluaignore as custom ignore file, default glob iff no --glob. Which paths the `ignore` crate's walker yields for a tree is its contract, not decided here",
     "trusts rustc's MIR printer, mirsym, z3 and the `ignore` / globset crates (walker, gitignore matcher, overrides precedence)", "5/C16")
 
 CLAIMED["C15"] = ("override dominance over every configuration route (vcheck/cfgorigin.py); mirsym over find_config_file (recursion inlined) / lookup_config_file_in_directory / find_toml_file / load_configuration(_for_stdin) with the file system abstracted to a symbolic directory chain and a map-summarised cache, two successive lookups; z3 against the documented precedence; directory-tree replay",
